@@ -139,11 +139,23 @@ PROPS = {
                  "descriptor types; distinct by type hash."),
         "jobs": [{"run": "^TestC14", "shards": 32, "timeout_quick": 600, "timeout_thorough": 3000}],
     },
+    "C13": {
+        "rule": ("(type x 1-2 values) from the accepted profile in the default configuration, finite floats, times in years 1..9999; excluded by "
+                 "named predicates: proto-tagged fields (the Descriptor carries no marker for the repeated form), negative values in flat fields "
+                 "narrower than 64 bits, json:\"-\", recursive types (open finding F10, counted). The Descriptor is used directly, after "
+                 "Marshal/Unmarshal through plenc, and after a round trip through encoding/json (all three must be equal and give byte-identical "
+                 "output). Oracle: Descriptor.Read succeeds; json.Valid; the parse (token stream, UseNumber) equals the harness's JSON data-model "
+                 "rendering of the normalised value: structs as objects keyed by json-or-Go name with omitted fields absent, slices as arrays "
+                 "element for element, string-keyed maps as objects and other maps as {key,value} lists (both as multisets), pointers as their "
+                 "target (null when nil), times as RFC 3339 by instant, integers as exact decimal text, floats by ParseFloat equality, invalid "
+                 "UTF-8 after U+FFFD replacement. Non-trivial = output has a non-empty array or object; distinct by case hash."),
+        "jobs": [{"run": "^TestC13", "shards": 32, "timeout_quick": 600, "timeout_thorough": 3000}],
+    },
 }
 
 # Properties not (yet) claimed, with the reason. Kept current by hand.
 NOT_APPLICABLE = {p: "check not built yet in this commit (work in progress; the technique applies, see DESIGN.md)" for p in
-                  ["C07", "C08", "C13", "C16", "C17", "C19", "C20"]}
+                  ["C07", "C08", "C16", "C17", "C19", "C20"]}
 
 # commits in /repo that add build-tag-guarded hooks
 HOOK_COMMITS = []
